@@ -5,6 +5,7 @@ package cqlclient
 import (
 	"bytes"
 	"crypto/sha256"
+	"crypto/tls"
 	"encoding/binary"
 	"encoding/hex"
 	"errors"
@@ -80,6 +81,28 @@ func Dial(addr string, id int, t *tracer.Tracer) (*Client, error) {
 		tc.SetNoDelay(true)
 	}
 	c := &Client{ID: id, T: t, nc: nc, codec: frame.NewRawCodec(), Version: primitive.ProtocolVersion4, closedCh: make(chan struct{}), LocalAddr: nc.LocalAddr().String()}
+	c.cond = sync.NewCond(&c.mu)
+	go c.read()
+	return c, nil
+}
+
+// DialTLS is Dial over TLS; the handshake must complete within `handshake`.
+func DialTLS(addr string, id int, t *tracer.Tracer, cfg *tls.Config, handshake time.Duration) (*Client, error) {
+	raw, err := net.DialTimeout("tcp", addr, 5*time.Second)
+	if err != nil {
+		return nil, err
+	}
+	if tc, ok := raw.(*net.TCPConn); ok {
+		tc.SetNoDelay(true)
+	}
+	nc := tls.Client(raw, cfg)
+	_ = raw.SetDeadline(time.Now().Add(handshake))
+	if err := nc.Handshake(); err != nil {
+		raw.Close()
+		return nil, fmt.Errorf("tls handshake: %w", err)
+	}
+	_ = raw.SetDeadline(time.Time{})
+	c := &Client{ID: id, T: t, nc: nc, codec: frame.NewRawCodec(), Version: primitive.ProtocolVersion4, closedCh: make(chan struct{}), LocalAddr: raw.LocalAddr().String()}
 	c.cond = sync.NewCond(&c.mu)
 	go c.read()
 	return c, nil
